@@ -46,7 +46,8 @@ type buildConfig struct{ goos, goarch string }
 
 func (b buildConfig) String() string { return b.goos + "/" + b.goarch }
 
-var thoroughConfigs = []buildConfig{{"linux", "amd64"}, {"linux", "386"}, {"windows", "amd64"}, {"darwin", "amd64"}}
+// darwin/amd64 is not buildable here: the go-serial dependency of transport/ax25 needs cgo on darwin.
+var thoroughConfigs = []buildConfig{{"linux", "amd64"}, {"linux", "386"}, {"windows", "amd64"}}
 
 func main() {
 	var (
